@@ -153,27 +153,39 @@ impl<TS: TimeSource> BeaconSerializer<TS> {
     }
 
     fn peerlist_decode(&self, data: &str, ttl_hours: Option<u16>) -> Vec<SocketAddr> {
-        let mut data = from_base62(data).expect("Invalid input");
+        let data = from_base62(data).expect("Invalid input");
+        // The base-62 text form does not preserve leading zero bytes, so try to restore them
+        for missing in 0..4 {
+            let mut padded = vec![0; missing];
+            padded.extend_from_slice(&data);
+            if let Some(peers) = self.peerlist_decode_bytes(padded, ttl_hours) {
+                return peers;
+            }
+        }
+        Vec::new()
+    }
+
+    fn peerlist_decode_bytes(&self, mut data: Vec<u8>, ttl_hours: Option<u16>) -> Option<Vec<SocketAddr>> {
         let mut peers = Vec::new();
         let mut pos = 0;
         if data.len() < 4 {
-            return peers;
+            return None;
         }
         if !self.decrypt_data(&mut data) {
-            return peers;
+            return None;
         }
         let then = Wrapping(Encoder::read_u16(&data[pos..=pos + 1]));
         if let Some(ttl) = ttl_hours {
             let now = Wrapping(Self::now_hour_16());
             if now - then > Wrapping(ttl) && then - now > Wrapping(ttl) {
-                return peers;
+                return Some(peers);
             }
         }
         pos += 2;
         let v4count = data[pos] as usize;
         pos += 1;
         if v4count * 6 > data.len() - pos || (data.len() - pos - v4count * 6) % 18 > 0 {
-            return peers;
+            return None;
         }
         for _ in 0..v4count {
             assert!(data.len() >= pos + 6);
@@ -201,7 +213,7 @@ impl<TS: TimeSource> BeaconSerializer<TS> {
             ));
             peers.push(addr);
         }
-        peers
+        Some(peers)
     }
 
     pub fn encode(&self, peers: &[SocketAddr]) -> String {
